@@ -158,8 +158,12 @@ def text_of(evs):
     return events.events_text(evs, tc.PosTable())
 
 
+HEUR = {}        # program term -> {subroutine: AggressiveUnroll.inline_heuristic(code)}
+
+
 def run(ctx):
     S = tweezer_prog.harness_spec()
+    HEUR.clear()
     ctx.rule = ("move programs (device calls, parallel blocks, five gate kinds with distinct parameters, fills, measurements, for/if, subroutines with "
                 "and without early return, closures) x argument tuples over ints 0..3 and bools x compilation routes: the 2^5 decorator "
                 "combinations fold/aggressive/typeinfer/verify/arch_spec, AggressiveUnroll, and the pipeline applied twice (quick: a strength-2 "
@@ -184,6 +188,13 @@ def run(ctx):
         argsets = list(dict.fromkeys(argsets))
         refs = {}
         pc = prog_coq(prog)
+        # what AggressiveUnroll's inline heuristic says about each subroutine of this program
+        try:
+            from bloqade.shuttle.passes.fold import AggressiveUnroll
+            sub_ns = kernels.define(move_native.split_source(src)[1], S=S, **kernel_ns)
+            HEUR[pc] = {name: bool(AggressiveUnroll.inline_heuristic(sub_ns[name].code)) for name, _, _ in prog.subs}
+        except Exception as e:
+            ctx.obligation("inline heuristic can be evaluated on the generated subroutines", False, f"{type(e).__name__}: {e}"[:200])
         for args in argsets:
             r = move_native.run_native(nsrc, args, S, kernel_ns=kernel_ns)
             refs[args] = r
@@ -242,18 +253,28 @@ def run(ctx):
         for j, (pc, cs) in enumerate(ch):
             b += f"Definition p{j} := {pc}.\n"
             evals += [f"show_run (run_prog 300 p{j} {c[1]})" for c in cs]
-        b += "Eval vm_compute in (lines %s)." % clist(evals)
+        b += "Eval vm_compute in (lines %s).\n" % clist(evals)
+        b += ("Definition heur (p : prog) : string := sep_by \",\" (map (fun sb => (fst sb ++ \":\" ++ show_bool (nested_ret_free (sub_body (snd sb))))%%string) (subs p)).\n"
+              "Eval vm_compute in (lines %s)." % clist([f"heur p{j}" for j in range(len(ch))]))
         bodies.append((f"src_{k}", b))
-    mism = []
+    mism, hmis, nh = [], [], 0
     for ch, (ok, vals, log) in zip(chunks, coqrun.eval_many(ctx.bdir, bodies)):
         flat = [c for _, cs in ch for c in cs]
-        if not ok or len(vals) != 1 or len(vals[0]) != len(flat):
+        if not ok or len(vals) != 2 or len(vals[0]) != len(flat) or len(vals[1]) != len(ch):
             ctx.obligation("coqc source-semantics file evaluates", False, log[-800:])
             continue
+        for (pc, cs), hl in zip(ch, vals[1]):
+            model = dict(x.split(":") for x in hl.split(",") if ":" in x)
+            for name, py in HEUR.get(pc, {}).items():
+                nh += 1
+                if model.get(name) != ("T" if py else "F"):
+                    hmis.append({"subroutine": name, "inline_heuristic(code)": py, "model nested_ret_free": model.get(name), "src": cs[0][3][cs[0][3].index("@move"):][:600]})
         for c, line in zip(flat, vals[0]):
             if line != c[2]:
                 mism.append({"model": line[:300], "native": c[2][:300], "args": repr(c[4]), "src": c[3][c[3].index("@move"):][:800]})
     ctx.correspondence("Model.MoveLang.run_prog (source semantics in Coq) vs the source evaluated natively (event labels)", len(labels_cases), mism)
+    ctx.correspondence("AggressiveUnroll.inline_heuristic(code of each generated subroutine) = Model.MoveLang.nested_ret_free (the heuristic "
+                       "that theorem C04_heuristic_inlining_preserves_events is about)", nh, hmis)
     reflect_purity(ctx)
     ctx.explanation = ("Theorems: DCE/CSE/constant-folding over an abstract SSA program preserve the executed event list whenever the purity table is "
                        "sound; the purity table of every statement class of the move dialect group is reflected from the live code and re-checked; the "
